@@ -73,8 +73,13 @@ STORE_SWITCHES = {k: CODE_VERSION[k] for k in ("FixWideMask",)}
 ENF_SWITCHES = {k: CODE_VERSION[k] for k in ("FixBanAllOfHost",)}
 
 ENF_CONFIGS = {
-    "quick": dict(NP=2, NI=2, NJ=2, MaxOps=6),
-    "thorough": dict(NP=3, NI=2, NJ=2, MaxOps=6),
+    "quick": dict(NP=2, NI=2, NJ=2, MaxOps=6, Split=False),
+    "thorough": dict(NP=3, NI=2, NJ=2, MaxOps=6, Split=False),
+}
+# BanPeer taken step by step (ban write held, environment moves in the window, write commits)
+WINDOW_CONFIGS = {
+    "quick": dict(NP=2, NI=1, NJ=2, MaxOps=7, Split=True),
+    "thorough": dict(NP=3, NI=1, NJ=2, MaxOps=7, Split=True),
 }
 
 STORE_CONFIGS = {
@@ -116,8 +121,8 @@ def label(act):
             return "Version(p%d,i%d,j%d,f%d)=%s" % (act["p"], act["i"], act["j"], act["f"], res)
         if op in ("VerAck", "Drop"):
             return "%s(p%d,i%d,j%d)=%s" % (op, act["p"], act["i"], act["j"], res)
-        if op == "Misbehave":
-            return "Misbehave(i%d,j%d,k%d)=%s" % (act["i"], act["j"], act["k"], res)
+        if op in ("Misbehave", "BanBegin", "BanCommit"):
+            return "%s(i%d,j%d,k%d)=%s" % (op, act["i"], act["j"], act["k"], res)
         if op == "Unban":
             return "Unban(i%d)=%s" % (act["i"], res)
         return "%s=%s" % (op, res)
@@ -334,6 +339,8 @@ def run(prop_id, tier, seed, replay=None):
                     lambda: _store_part("store", STORE_CONFIGS[tier], tier, seed, rng, sc, store_bin,
                                         walks=2000 if thorough else 0, depth=40,
                                         env={"VERIF_SOON": "1" if thorough else "0"}),
+                    lambda: _enf_part("enforce-window", WINDOW_CONFIGS[tier], tier, seed, rng, sc, enf_bin,
+                                      walks=1000 if thorough else 0, depth=30),
                     lambda: _enf_part("enforce", ENF_CONFIGS[tier], tier, seed, rng, sc, enf_bin,
                                       walks=2000 if thorough else 0, depth=30)]
             if thorough:
@@ -342,7 +349,8 @@ def run(prop_id, tier, seed, replay=None):
                 plan.append(lambda: _store_part("store-timed", TIMED_CONFIG, tier, seed, rng, sc, store_bin,
                                                 max_len=24, env={"VERIF_PAR": "48", "VERIF_SOON": "0"}))
             only = os.environ.get("VERIF_C13_PARTS")      # self-test aid: run a subset of the parts
-            names = ["store-conc", "store", "enforce"] + (["store-wide", "store-timed"] if thorough else [])
+            names = ["store-conc", "store", "enforce-window", "enforce"] + \
+                (["store-wide", "store-timed"] if thorough else [])
             for nm, step in zip(names, plan):
                 if only and nm not in only.split(","):
                     continue
